@@ -13,10 +13,10 @@ import (
 
 func init() {
 	register(&core.Property{
-		ID:    "C07",
-		Title: "Every generated configuration is loadable: references resolve, names are unique",
+		ID:          "C07",
+		Title:       "Every generated configuration is loadable: references resolve, names are unique",
 		Explanation: "Static decision of the reference closure between Go and the (parsed, never executed) template and of the writers of the uniqueness invariants: (1) every literal backend name referenced by `use_backend`/`default_backend` in the template, and every `_name` constant the Go code can put into a host's backend id or a map target, is defined by a literal `backend <name>` section, under a guard that holds whenever the reference is produced; (2) the userlist a backend names is a live one, and the backend is linked to the secret so that it is re-created when the list goes away; (3) path ids are assigned by one writer from the path count of an append-only list; (4) auth-proxy binds are written by three Frontend methods only; the allocator scans a list it keeps sorted by port and reports exhaustion; the `used` set that decides which binds may be recycled covers every holder; (5) server names are chosen after scanning the existing names.",
-		NotDecided: []string{"loadability of a concrete configuration by HAProxy (`haproxy -c`)", "map files and crt-lists existence on disk"},
+		NotDecided:  []string{"loadability of a concrete configuration by HAProxy (`haproxy -c`)", "map files and crt-lists existence on disk"},
 		Rules: []*core.Rule{
 			{ID: "C07.names-closed", Floor: 5, Run: c07NamesClosed, Doc: "Reference closure of literal backend names between Go and the template, with their guards (frozen guard table: behavioural)."},
 			{ID: "C07.userlist-live", Floor: 2, Run: c07UserlistLive, Doc: "AuthHTTP.UserlistName is the Name of a userlist returned by Userlists.Find/Replace, and the Secret->HABackend link lies on every path from the lookup to the assignment."},
